@@ -607,18 +607,30 @@ def build(desc, names=None, sysname=None, hook=None):
         ensure_wire('i%d' % k)
     for o in desc['outputs']:
         ensure_ports(o)
-    # 5. clock domains
+    # 5. clock domains.  desc['clock_names'] == 'shared': every gated driver object carries the same name (a reusable
+    # block that builds ClockDriver('gclk', enable=en) in its constructor, instantiated several times);
+    # desc['late_clocks']: the simulator is obtained once before the drivers are attached (the after-construction idiom
+    # `dut.clockDriver = ...` followed by another getSimulator())
+    shared = desc.get('clock_names') == 'shared'
+    if desc.get('late_clocks'):
+        for g in groups:
+            if g.get('enable') is not None:
+                ensure_ports(g['enable'])
+        for nd in nodes:
+            if nd['p'].get('cen') is not None:
+                ensure_ports(nd['p']['cen'])
+        b.sys.getSimulator()
     for gi, g in enumerate(groups):
         if g.get('enable') is not None and gi in b.group_obj:
             ensure_ports(g['enable'])
-            b.group_obj[gi].clockDriver = ClockDriver('gclk%d' % gi, base=b.sys.clockDriver, enable=b.wire[g['enable']])
+            b.group_obj[gi].clockDriver = ClockDriver('gclk' if shared else 'gclk%d' % gi, base=b.sys.clockDriver, enable=b.wire[g['enable']])
         elif g.get('clk') is not None and gi in b.group_obj:
             ensure_ports(g['clk']['wire'])
             b.group_obj[gi].clockDriver = ClockDriver(g['clk']['name'], 25E6, wire=b.wire[g['clk']['wire']])
     for k, nd in enumerate(nodes):
         if nd['p'].get('cen') is not None and k in b.node_obj:
             ensure_ports(nd['p']['cen'])
-            b.node_obj[k].clockDriver = ClockDriver('lclk%d' % k, base=b.sys.clockDriver, enable=b.wire[nd['p']['cen']])
+            b.node_obj[k].clockDriver = ClockDriver('gclk' if shared else 'lclk%d' % k, base=b.sys.clockDriver, enable=b.wire[nd['p']['cen']])
     b.inputs = [b.wire['i%d' % k] for k in range(len(desc['inputs']))]
     b.outputs = [b.wire[o] for o in desc['outputs']]
     return b
